@@ -193,6 +193,8 @@ impl Q {
     // R-NAN: +inf sentinel: an unspecified value with no axioms except being that of q_big()
     #[verifier::external_body] pub fn inf() -> (r: Q) ensures r@ == q_big() { unimplemented!() }
     #[verifier::external_body] pub fn neg_inf() -> (r: Q) ensures r@ == -q_big() { unimplemented!() }
+    // R-NAN: NaN has no real counterpart: an unspecified value, nothing can be proved from it
+    #[verifier::external_body] pub fn nan() -> (r: Q) { unimplemented!() }
 }
 
 // ---- errors (R-ERR)
@@ -220,3 +222,9 @@ pub fn rt_assert(c: bool) ensures c { unimplemented!() }
 // R-ABORT: `unreachable!()/todo!()/panic!()`: reaching it is a failed obligation
 #[verifier::external_body]
 pub fn rt_abort() -> ! requires false { unimplemented!() }
+
+// R-VEC: `vec![e; n]`
+#[verifier::external_body]
+pub fn vec_repeat<T: Copy>(el: T, n: usize) -> (r: Vec<T>)
+    ensures r.len() == n, forall|i: int| 0 <= i < n ==> r@[i] == el
+{ unimplemented!() }
